@@ -29,7 +29,11 @@ def tree0_of(run: pipe.Run):
 def one(ctx, res: Result, hist, cfg, batch, init_tree=None):
     def before_close(run):
         run.drain()
-        return pipeprops.oracle_replay(run, tree0_of(run))
+        bad = pipeprops.oracle_replay(run, tree0_of(run))
+        if bad:
+            paths = [x.encode("latin1") for k in ("missing_in_replay", "extra_in_replay", "wrong_kind") for x in bad[k]]
+            bad["_local_tags"] = sorted(pipeprops.tags_of_paths(run, paths))
+        return bad
     run, case, stopped, bad = pipecheck.execute(hist, cfg, init_tree, before_close)
     meta = pipecheck.meta_of(hist, cfg)
     res.evaluations += 1
@@ -46,8 +50,7 @@ def one(ctx, res: Result, hist, cfg, batch, init_tree=None):
         res.failures.append(Failure(
             what="replaying the delivered created/deleted/moved events does not reproduce the tree on disk", case=meta,
             signature={"law": "replay", "dir_provenance": tags,
-                       "cause": "stale-path-of-moved-out-directory-reused-before-first-read"
-                       if "first-seen-under-the-stale-path-of-a-directory-that-was-moved-out" in tags else "other"},
+                       "cause": pipeprops.cause_of(bad.get("_local_tags", []))},
             observed=bad, expected="replay(tree at start, events) == os.walk"))
     res.failures += pipecheck.thread_failures(run, stopped, meta, "C01")
     batch.append((meta, run, case))
